@@ -442,9 +442,11 @@ def decodeXlsb (ctx : Ctx) (ptg : Nat) (r : Bytes) : Res (Act × Bytes) :=
     | 0x01 | 0x02 | 0x08 | 0x20 | 0x21 | 0x40 | 0x41 | 0x80 => do
       need false r 2
       .ok (.nop, r.drop 2)
-    | 0x04 => do
-      need false r 10
-      .ok (.nop, r.drop 10)
+    | 0x04 => do  -- PtgAttrChoose: cOffset, then cOffset + 1 offsets
+      need false r 2
+      let n := u16 r 0 + 1
+      need false r (2 + 2 * n)
+      .ok (.nop, r.drop (2 + 2 * n))
     | 0x10 => do
       need false r 2
       .ok (.sum, r.drop 2)
@@ -494,9 +496,16 @@ def isMemFunc (ptg : Nat) : Bool := ptg = 0x29 || ptg = 0x49 || ptg = 0x69
 def finishXlsb (st : St) : Res (List Char) :=
   if st.stk.length = 1 then .ok st.buf else .err "StackLen"
 
-/-- the loop of `xlsb parse_formula`; PtgMemFunc (0x29/0x49/0x69) parses its `cce` bytes with a
-    recursive call of the whole function (which returns `""` for an empty slice) -/
-def runXlsb (ctx : Ctx) : Nat → Bytes → St → Res St
+/-- `MAX_FORMULA_NESTING`: how deep PtgMemFunc sub-expressions may nest -/
+def maxMemDepth : Nat := 64
+
+def errNesting (depth : Nat) : String :=
+  "Unrecognized { typ: \"formula nesting\", val: \"" ++ toString depth ++ "\" }"
+
+/-- the loop of `xlsb parse_formula_nested(rgce, sheets, names, depth)`; PtgMemFunc (0x29/0x49/0x69) parses its
+    `cce` bytes with a recursive call of the whole function (which returns `""` for an empty slice) one level
+    deeper, and is an error at depth `maxMemDepth` (the recursion is on the Rust call stack) -/
+def runXlsb (ctx : Ctx) (depth : Nat) : Nat → Bytes → St → Res St
   | _, [], st => .ok st
   | 0, _ :: _, _ => .outOfFuel
   | fuel + 1, p :: r, st =>
@@ -513,16 +522,17 @@ def runXlsb (ctx : Ctx) : Nat → Bytes → St → Res St
       | .panic e => .panic e
       | .outOfFuel => .outOfFuel
       | .ok _ =>
+      if depth ≥ maxMemDepth then .err (errNesting depth) else
       let sub := r2.take cce
       let inner : Res (List Char) :=
         if sub.isEmpty then .ok [] else
-        match runXlsb ctx fuel sub ⟨[], []⟩ with
+        match runXlsb ctx (depth + 1) fuel sub ⟨[], []⟩ with
         | .ok s => finishXlsb s
         | .err e => .err e
         | .panic e => .panic e
         | .outOfFuel => .outOfFuel
       match inner with
-      | .ok f => runXlsb ctx fuel (r2.drop cce) ⟨st.buf ++ f, st.stk ++ [st.buf.length]⟩
+      | .ok f => runXlsb ctx depth fuel (r2.drop cce) ⟨st.buf ++ f, st.stk ++ [st.buf.length]⟩
       | .err e => .err e
       | .panic e => .panic e
       | .outOfFuel => .outOfFuel
@@ -530,7 +540,7 @@ def runXlsb (ctx : Ctx) : Nat → Bytes → St → Res St
       match decodeXlsb ctx p.toNat r with
       | .ok (a, r') =>
         match applyAct a st with
-        | .ok st' => runXlsb ctx fuel r' st'
+        | .ok st' => runXlsb ctx depth fuel r' st'
         | .err e => .err e
         | .panic e => .panic e
         | .outOfFuel => .outOfFuel
@@ -538,10 +548,45 @@ def runXlsb (ctx : Ctx) : Nat → Bytes → St → Res St
       | .panic e => .panic e
       | .outOfFuel => .outOfFuel
 
+/-- the deepest `depth` argument among this call and all the recursive calls it makes (same control flow as
+    `runXlsb`): the number of `parse_formula_nested` frames on the Rust stack is this + 1 -/
+def depthUsed (ctx : Ctx) (depth : Nat) : Nat → Bytes → St → Nat
+  | _, [], _ => depth
+  | 0, _ :: _, _ => depth
+  | fuel + 1, p :: r, st =>
+    if isMemFunc p.toNat then
+      match need false r 2 with
+      | .ok _ =>
+        let cce := u16 r 0
+        let r2 := r.drop 2
+        match need false r2 cce with
+        | .ok _ =>
+          if depth ≥ maxMemDepth then depth else
+          let sub := r2.take cce
+          if sub.isEmpty then depthUsed ctx depth fuel (r2.drop cce) ⟨st.buf, st.stk ++ [st.buf.length]⟩
+          else
+            let dsub := depthUsed ctx (depth + 1) fuel sub ⟨[], []⟩
+            match (match runXlsb ctx (depth + 1) fuel sub ⟨[], []⟩ with
+                   | .ok s => finishXlsb s
+                   | .err e => .err e
+                   | .panic e => .panic e
+                   | .outOfFuel => .outOfFuel) with
+            | .ok f => max dsub (depthUsed ctx depth fuel (r2.drop cce) ⟨st.buf ++ f, st.stk ++ [st.buf.length]⟩)
+            | _ => dsub
+        | _ => depth
+      | _ => depth
+    else
+      match decodeXlsb ctx p.toNat r with
+      | .ok (a, r') =>
+        match applyAct a st with
+        | .ok st' => depthUsed ctx depth fuel r' st'
+        | _ => depth
+      | _ => depth
+
 /-- `xlsb/mod.rs parse_formula(rgce, sheets, names)` -/
 def parseFormulaXlsb (ctx : Ctx) (rgce : Bytes) : Res (List Char) :=
   if rgce.isEmpty then .ok [] else
-  match runXlsb ctx rgce.length rgce ⟨[], []⟩ with
+  match runXlsb ctx 0 rgce.length rgce ⟨[], []⟩ with
   | .ok st => finishXlsb st
   | .err e => .err e
   | .panic e => .panic e
